@@ -145,12 +145,15 @@ pub fn run(out: &mut Out, seed: u64, thorough: bool) {
             let mut plens: Vec<usize> = vec![0, 1, 3, 8, 26];
             around(&mut plens, 4093 - ll, 1);
             around(&mut plens, 4093, 1);
+            // the 16-bit total length counts the label as written: 65533 bytes fit after a substitution
+            around(&mut plens, 65533 - ll, 1);
+            around(&mut plens, 65533, 1);
             if thorough {
-                plens.extend([2, 4, 5, 6, 7, 9, 10, 100, 5000, 65527, 65530, 65533]);
+                plens.extend([2, 4, 5, 6, 7, 9, 10, 100, 5000, 65527, 65530]);
             }
             for plen in dedup(plens) {
                 let pdu = Pdu::random(out, plen, &mut rng);
-                let mut blens: Vec<usize> = (0..=17).collect();
+                let mut blens: Vec<usize> = if plen > 60000 { vec![0, 6, 7, 9, 10, 12, 13, 16, 100] } else { (0..=17).collect() };
                 blens.extend([4096, 4097, 4098]);
                 for c in [plen as isize + 4, plen as isize + 4 + ll, plen as isize + 7, plen as isize + 7 + ll] {
                     around(&mut blens, c, 1);
